@@ -160,11 +160,91 @@ def _wdl_capability_rule(ctx, wdl):
             ctx.ok(R, {"model_tables_from": names[first], "exactly_one_family_per_version": True})
 
 
+def _wdt_optional_chunk_gate_rule(ctx, wdt):
+    """WdtWriter::write emits an optional chunk whenever the value is present; the reader accepts it whenever the file has it.  The
+    one extra gate — MWMO under `should_have_chunk("MWMO", wmo_only)` — is paired with the reader by C18.same-optional-chunk-rule.
+    Any other condition between `if let Some(x) = wdt.<chunk>` and `x.write_chunk(..)` drops data that parses back as None."""
+    R = ctx.rule("C18.wdt-optional-chunks-written-when-present", "in WdtWriter::write an optional chunk's write_chunk call is guarded by its `if let Some(..)` only (MWMO: additionally by the version rule the reader shares)", floor=2)
+    from .c07 import enclosing_if_conditions
+    f = next((x for x in wdt.fn_list if x.hir and x.kind != "Closure" and norm(x.path).endswith("WdtWriter::<W>::write") or x.hir and x.kind != "Closure" and re.search(r"WdtWriter(::<\w+>)?::write$", x.path)), None)
+    if f is None:
+        ctx.bad(R, "WdtWriter::write|missing", "-", "function not found", "anchor gone")
+        return
+    ctx.saw_fn(f)
+    body = f.hir["body"]
+    lets = {l["pat"]["name"]: l["init"] for l in hirq.find(body, "let") if l["pat"].get("k") == "bind" and l.get("init") is not None}
+    PAIRED = {"MWMO"}          # reader and writer share the rule (C18.same-optional-chunk-rule)
+    n = 0
+    for c_ in [x for x in hirq.walk(body) if x.get("k") == "mcall" and x["m"] == "write_chunk"]:
+        recv = hirq.render(c_["recv"])
+        if recv.startswith("wdt."):
+            continue            # required chunks
+        n += 1
+        conds = [(w, cd) for w, cd in enclosing_if_conditions(body, c_) if w in ("then", "else")]
+        extra = []
+        for w, cd in conds:
+            r_ = hirq.render(cd)
+            if re.match(r"\(?let Some\(", r_):
+                continue
+            # expand a local holding the gate
+            cd2 = hirq.strip(cd)
+            if cd2.get("k") == "path" and "local" in cd2["res"]:
+                # the `let` of that name in the innermost `if` body that also contains this write (names repeat per chunk)
+                scopes = [n_ for n_ in hirq.find(body, "if") if any(y is c_ for y in hirq.walk(n_["then"])) and any(l_["pat"].get("k") == "bind" and l_["pat"]["name"] == cd2["res"]["local"] for l_ in hirq.find(n_["then"], "let"))]
+                if scopes:
+                    inner = min(scopes, key=lambda n_: len(hirq.render(n_)))
+                    l_ = next(l_ for l_ in hirq.find(inner["then"], "let") if l_["pat"].get("k") == "bind" and l_["pat"]["name"] == cd2["res"]["local"])
+                    r_ = hirq.render(l_["init"])
+                elif cd2["res"]["local"] in lets:
+                    r_ = hirq.render(lets[cd2["res"]["local"]])
+            extra.append(r_)
+        gates = [re.search(r"should_have_chunk\('(\w+)'", e_) for e_ in extra]
+        if not extra:
+            ctx.ok(R, {"chunk_value": recv, "guard": "presence only"})
+        elif all(g and g.group(1) in PAIRED for g in gates):
+            ctx.ok(R, {"chunk_value": recv, "guard": "presence + version rule shared with the reader", "chunk": gates[0].group(1)})
+        else:
+            ctx.bad(R, "WdtWriter::write|%s|extra-gate" % recv, "%s:%d" % (f.file, c_.get("ln") or 0), "`%s.write_chunk` additionally requires `%s`" % (recv, "; ".join(extra)[:90]),
+                    "a file whose model carries that chunk is written without it whenever the extra condition is false, although the reader accepts (and returns) the chunk for such files: the value is lost on write -> parse")
+    if n == 0:
+        ctx.bad(R, "WdtWriter::write|no-optional", f.where, "no optional chunk write recognised", "shape changed")
+
+
+def _wdl_loss_guard_rule(ctx, wdl):
+    """convert_wdl_file refuses a conversion that would drop data the target version has no chunk for.  What is dropped is the whole
+    collection, so the refusal must fire whenever the collection is non-empty: its guard may look at the collection through
+    is_empty() / len() only, never at the values of its elements (an entry whose masks happen to be all zero is data too)"""
+    R = ctx.rule("C18.wdl-loss-guard-tests-presence-not-values", "every refusing (`return Err`) condition of convert_wdl_file reads the file's collections through is_empty()/len() only", floor=1)
+    f = next((x for x in wdl.fn_list if x.hir and x.kind != "Closure" and norm(x.path).endswith("conversion::convert_wdl_file")), None)
+    if f is None:
+        ctx.bad(R, "convert_wdl_file|missing", "-", "function not found", "anchor gone")
+        return
+    ctx.saw_fn(f)
+    n = 0
+    for n_ in hirq.find(f.hir["body"], "if"):
+        if not any(x.get("k") == "ret" and "Err" in hirq.render(x.get("e")) for x in hirq.walk(n_["then"])):
+            continue
+        coll = [x for x in hirq.walk(n_["c"]) if x.get("k") == "mcall" and re.search(r"_data$|_names$|_placements$|_offsets$|tiles$", hirq.render(x.get("recv")))]
+        if not coll:
+            continue
+        n += 1
+        deep = [x for x in coll if x["m"] not in ("is_empty", "len")]
+        if deep:
+            ctx.bad(R, "convert_wdl_file|value-dependent-refusal", "%s:%d" % (f.file, n_.get("ln") or 0), "the refusal looks into the elements: `%s`" % hirq.render(n_["c"])[:100],
+                    "a source whose entries all have the values the predicate ignores is converted 'successfully' with that collection silently dropped")
+        else:
+            ctx.ok(R, {"guard": hirq.render(n_["c"])[:80]})
+    if n == 0:
+        ctx.bad(R, "convert_wdl_file|no-refusal", f.where, "no refusing condition over a collection found", "data the target cannot hold is dropped without an error, or the shape changed")
+
+
 def run(ctx):
     prog = ctx.prog
     wdt = prog.crate("wow_wdt")
     wdl = prog.crate("wow_wdl")
     _conversion_steps_rule(ctx, wdt)
+    _wdt_optional_chunk_gate_rule(ctx, wdt)
+    _wdl_loss_guard_rule(ctx, wdl)
     _wdl_capability_rule(ctx, wdl)
     R_pair = ctx.rule("C18.read-write-wire-agreement", "each WDT chunk / WDL record is written with the widths, order and named fields it is read with", floor=10)
     R_size = ctx.rule("C18.size-equals-bytes-written", "for fixed-size chunks size() equals the number of bytes write() emits", floor=2)
